@@ -143,10 +143,18 @@ def nodupKeys {α} : List (Str × α) → Bool
   | [] => true
   | x :: xs => !(xs.any (·.1 == x.1)) && nodupKeys xs
 
-/-- the documents on which `parse ∘ render` is the identity (up to the order the sorted dictionaries impose) -/
+/-- an option whose name starts with a comment prefix is written, but is a comment line to the reader
+(the `; WARNING.n` options of `[general]`) -/
+def isCommentName (k : Str) : Bool := Str.startsWith k ['#'] || Str.startsWith k [';']
+
+/-- the document without its comment-named options: what the reader can see -/
+def dropComments (d : Ini) : Ini := d.map fun sec => (sec.1, sec.2.filter fun kv => !isCommentName kv.1)
+
+/-- the documents on which `parse (render d) = canon (dropComments d)` -/
 def Representable (d : Ini) : Bool :=
   nodupKeys d && d.all fun sec =>
-    secNameOK sec.1 && nodupKeys sec.2 && sec.2.all fun kv => nameOK kv.1 && valueOK kv.2
+    secNameOK sec.1 && nodupKeys sec.2 && sec.2.all fun kv =>
+      (isCommentName kv.1 && noOuterBlank kv.1 && singleLine kv.1 && singleLine kv.2) || (nameOK kv.1 && valueOK kv.2)
 
 /-- canonical form of a document: sections and options in `SortedDict` order -/
 def canon (d : Ini) : Ini := (sortKV d).map fun sec => (sec.1, sortKV sec.2)
